@@ -1,10 +1,12 @@
 // Regenerates lean/KG/Gen/C20.lean: how each kind of the proxy group is served by the control plane, read from
-//   pkg/gateway/controlplane/registry/proxy/rest/rest.go         (which option builders are registered; per kind:
-//        Kind/Resource, the strategy handed to SetRESTStrategy, the value assigned to options.SubStatus)
-//   staging/.../apiserver-runtime/pkg/registry/strategy.go        (the strategy singletons -> (namespaced, subStatus))
-//   staging/.../apiserver-runtime/pkg/registry/option.go          (the factory's default strategy)
-//   pkg/apis/proxy/v1alpha1/*.go                                  (does the Go type have ObjectMeta / Spec / Status;
-//        how many fields its Status type has)
+//
+//	pkg/gateway/controlplane/registry/proxy/rest/rest.go         (which option builders are registered; per kind:
+//	     Kind/Resource, the strategy handed to SetRESTStrategy, the value assigned to options.SubStatus)
+//	staging/.../apiserver-runtime/pkg/registry/strategy.go        (the strategy singletons -> (namespaced, subStatus))
+//	staging/.../apiserver-runtime/pkg/registry/option.go          (the factory's default strategy)
+//	pkg/apis/proxy/v1alpha1/*.go                                  (does the Go type have ObjectMeta / Spec / Status;
+//	     how many fields its Status type has)
+//
 // A kind added to (or removed from) rest.go changes the list; KG.Props.C20 re-decides, over the regenerated list,
 // that every kind served with a status subresource has a Spec and a Status and a main strategy built with
 // subStatus=true, and the harness compares the list with the storage map the real code builds at run time.
